@@ -7,15 +7,15 @@ BASE = ['elements']
 NUM = ['z3', 'cpython', 'numpy-scalar']
 NET = ['z3', 'cpython', 'numpy-scalar', 'numpy-array', 'solve', 'ring']
 
-register('C01', level='other', sidecars=BASE + ['solution', 'net_bounded', 'net_ops_bounded'], trusted=NET,
+register('C01', level='other', sidecars=BASE + ['solution', 'net_bounded', 'net_ops_bounded', 'seq_network'], trusted=NET,
          explanation='proved: element value laws, predicates, voltage = potential difference, power = v*conj(i) (contracts on the real functions, all inputs). '
                      'bounded: the full solver on five fixed topologies with ALL element values symbolic - KCL at every node incl. the reference node, KVL, '
                      'every element law in the library reference directions, Tellegen, totality ("a valid network never fails to solve")')
-register('C02', level='other', sidecars=BASE + ['components', 'periodic', 'transformers', 'solution', 'net_ops_bounded', 'net_bounded'], trusted=NET,
+register('C02', level='other', sidecars=BASE + ['components', 'periodic', 'transformers', 'solution', 'net_ops_bounded', 'net_bounded', 'seq_circuit'], trusted=NET,
          explanation='contracts on the component->branch translators (exact immittances and source phasors at every w, frequency gating), on '
                      'the DC/complex solution wrappers (peak vs RMS scaling, real part at w=0) and on the element value helpers; the network '
                      'solver underneath is covered under C01')
-register('C03', level='other', sidecars=['net_bounded', 'net_ops_bounded', 'statespace'], trusted=NET,
+register('C03', level='other', sidecars=['net_bounded', 'net_ops_bounded', 'statespace', 'seq_network'], trusted=NET,
          explanation='bounded: renamed / permuted / terminal-reversed / re-referenced copies of topology T1 give the same physical results for all element values; '
                      'change of reference shifts all potentials by one constant')
 register('C04', level='other', sidecars=BASE + ['net_bounded', 'net_ops_bounded'], trusted=NET,
@@ -24,21 +24,21 @@ register('C05', level='other', sidecars=BASE + ['solution', 'net_bounded', 'mult
          explanation='contracts on get_power of the network, DC and complex solutions plus the loop-free sign lemmas for R, L, C element laws; Tellegen on the bounded topologies')
 register('C06', level='other', sidecars=BASE + ['net_bounded', 'net_ops_bounded'], trusted=NET,
          explanation='bounded: port impedance of series/parallel ladders (symmetry, reference independence, identical nodes, element impedance), open-circuit voltage on T1')
-register('C07', level='proof', sidecars=BASE + ['components', 'periodic', 'transformers', 'net_ops_bounded'], trusted=NUM,
+register('C07', level='proof', sidecars=BASE + ['components', 'periodic', 'transformers', 'net_ops_bounded', 'seq_circuit'], trusted=NUM,
          explanation='one contract per translator and constructor, dispatch table contract')
 register('C08', level='proof', sidecars=['periodic'], trusted=NUM,
          explanation='closed forms, a/b/c forms, lookup, time functions on open pieces')
 register('C16', level='other', sidecars=BASE + ['net_ops_bounded'], trusted=NET,
          explanation='bounded: short-circuit contraction (single, chains in both listing orders, star, parallel + reference, exempted), open removal, element removal, '
                      'reference switch, passive network - structure clauses plus equality of the solver result before/after for all element values')
-register('C17', level='proof', sidecars=BASE + ['components', 'loaders', 'dump_load'], trusted=NUM + ['json'],
+register('C17', level='proof', sidecars=BASE + ['components', 'loaders', 'dump_load', 'seq_loaders'], trusted=NUM + ['json'],
          explanation='loader table, to_complex, load_network, dump_load round trips under the assumed json/yaml contract')
-register('C19', level='proof', sidecars=BASE + ['components', 'periodic', 'loaders', 'dump_load', 'net_ops_bounded', 'statespace'], trusted=NUM,
+register('C19', level='proof', sidecars=BASE + ['components', 'periodic', 'loaders', 'dump_load', 'net_ops_bounded', 'statespace', 'seq_network', 'seq_circuit', 'seq_loaders'], trusted=NUM,
          explanation='raises-iff contracts on constructors and loaders')
 register('C09', level='other', sidecars=BASE + ['components', 'periodic', 'transformers', 'multifreq'], trusted=NUM + ['numpy-array'], extras=[standin.make('frequencies', 'frequencies.py')],
          explanation='contracts on frequency_components (sinusoidal sources; periodic source with up to 8 harmonics), TimeDomainSolution (sum of |X_k| cos(w_k t + arg X_k), power = v(t) i(t)) '
                      'and FrequencyDomainSolution (one- and two-sided) for an arbitrary stubbed network solver; per-harmonic source phasors are the periodic translator contracts of C07')
-register('C20', level='proof', sidecars=BASE + ['components', 'loaders', 'dump_load', 'net_ops_bounded'], trusted=NUM + ['frame'], extras=[frame.obligations],
+register('C20', level='proof', sidecars=BASE + ['components', 'loaders', 'dump_load', 'net_ops_bounded', 'seq_loaders'], trusted=NUM + ['frame'], extras=[frame.obligations],
          explanation='FRAME pass (ownership analysis by syntactic rules, pyvc/frame.py) over every function of Network/, Circuit/, SignalProcessing/ and dump_load.py: each mutation site '
                      'mutates an object allocated by the same function; no global/nonlocal; module-level tables are never written. Plus the semantic frame obligations (inputs compared '
                      'before/after the call) of the loader contracts. History independence then follows: every operation is a function of its arguments and leaves pre-existing objects unchanged.')
